@@ -574,6 +574,42 @@ def generate(o):
         return False
 
     writes_frame = item("arrowexpr.conversion_writes_frame", conversion_writes_frame, False)
+
+    def schema_edited_after_build():
+        # converters.from_arrow: once the columns are built from the FIELDS (`FlatColumn.from_arrow(field) for field in ...`),
+        # is anything stored on them / on the schema - an attribute assigned (`column.nullable = ...`, `orso_schema.columns[i].x = ...`),
+        # `setattr`, an element of the schema's column list replaced or the list edited?  What a column says would then depend on
+        # something else than its field (the cells, the position of the table in the stream ...).
+        fn = conv.func("from_arrow")
+        built = [a.targets[0].id for a in ast.walk(fn) if isinstance(a, ast.Assign) and len(a.targets) == 1
+                 and isinstance(a.targets[0], ast.Name) and "FlatColumn.from_arrow" in ast.unparse(a.value)]
+        if not built:
+            raise KeyError("from_arrow: no `name = ...FlatColumn.from_arrow(...)...` assignment")
+        # ... and the same for `DataFrame.from_arrow`, which passes the schema on to the frame (its locals: `rows, schema`)
+        fn2 = find_function(frame.tree, "from_arrow", "DataFrame")
+        built = built + ["schema"]
+        for n in list(ast.walk(fn)) + list(ast.walk(fn2)):
+            tgts = []
+            if isinstance(n, ast.Assign):
+                tgts = n.targets
+            elif isinstance(n, (ast.AugAssign, ast.AnnAssign, ast.NamedExpr)):
+                tgts = [n.target]
+            elif isinstance(n, ast.Delete):
+                tgts = n.targets
+            for t in tgts:
+                for e in (t.elts if isinstance(t, (ast.Tuple, ast.List)) else [t]):
+                    if isinstance(e, (ast.Attribute, ast.Subscript)):
+                        return True  # the unchanged function stores into no object at all
+            if isinstance(n, ast.Call):
+                f = ast.unparse(n.func)
+                if f.split(".")[-1] in ("setattr", "__setattr__"):
+                    return True
+                if f.split(".")[-1] in ("append", "pop", "insert", "remove", "extend", "clear", "sort", "reverse", "update") \
+                        and any(f == b_ or f.startswith(b_ + ".") for b_ in built):
+                    return True
+        return False
+
+    schema_edited = item("arrowexpr.from_arrow.schema_edited_after_build", schema_edited_after_build, False)
     via_helper, helper_memo, col_memo = item("arrowexpr.schema_sites.from_arrow", schema_sites, [False, False, False])
     af_memo, to_helper_memo, to_arrow_memo = item("arrowexpr.schema_sites.to_arrow", to_sites, [False, False, False])
     accepted, itered = item("arrowexpr.from_arrow.input_dispatch", input_dispatch, [["Generator", "list", "tuple"], ["list", "tuple"]])
@@ -661,6 +697,9 @@ def generate(o):
     text += ("/-- something on the conversion path (`DataFrame.arrow` / `.pandas`, `to_arrow` / `to_pandas`) assigns an attribute of the\n"
              "frame it converts (a kept table, a flag ...): a conversion is then not a function of the rows the frame holds -/\n")
     text += "def conversionWritesFrame : Bool := %s\n" % b(writes_frame)
+    text += ("/-- converters.py `from_arrow` / dataframe.py `DataFrame.from_arrow` stores something on the columns / the schema after they were built from the Arrow fields\n"
+             "(an attribute assigned, `setattr`, the column list edited): a column's attributes then no longer come from its field alone -/\n")
+    text += "def schemaEditedAfterBuild : Bool := %s\n" % b(schema_edited)
     def strs(xs):
         return "[" + ", ".join('"%s"' % x for x in xs) + "]"
     text += ("/-- converters.py `from_arrow`: the kinds of argument object (built-in int, bool, int subclass, numpy integer scalar, float,\n"
